@@ -11,6 +11,10 @@ import (
 // If the callback function returns true, the iteration stops.
 func IterateStructFields(structNode Node, cb func(Node) (done bool)) {
 	util.IterateFields(structNode.ExprType(), func(t *types.Var) (done bool) {
+		if t.Name() == "_" {
+			// A blank field cannot be selected: it is neither a destination nor a source.
+			return
+		}
 		node := NewStructFieldNode(structNode, t)
 		return cb(node)
 	})
